@@ -143,6 +143,34 @@ def scan(repo):
                 sq = io_sequence(d, name)
                 if sq is not None:
                     seqs.setdefault(outer, {})[name] = sq
+        if k == 'CXXMethodDecl' and name == 'dump' and outer == 'field':
+            sq = io_sequence(d, 'write_binary')
+            if sq is not None:
+                seqs.setdefault('field', {})['write_binary'] = sq
+        if k == 'CXXConstructorDecl' and outer == 'field' and any(p.get('kind') == 'ParmVarDecl' and 'istream' in p.get('type', {}).get('qualType', '') for p in d.get('inner', [])):
+            # field(std::istream & fs) : m_backend(X::read_binary(utility::read_io_header(fs, TAG))) { utility::read_io_footer(fs, TAG); }
+            sq = []
+            for c in d.get('inner', []):
+                if c.get('kind') == 'CXXCtorInitializer':
+                    acc = []
+
+                    def order(x):
+                        # innermost call first = evaluation order of nested calls
+                        if isinstance(x, dict):
+                            for y in x.get('inner', []):
+                                order(y)
+                            if x.get('kind') in ('CallExpr', 'CXXMemberCallExpr'):
+                                n, _ = callee_name(x)
+                                acc.append(n)
+                    order(c)
+                    for n in acc:
+                        sq.append('H' if n == 'read_io_header' else ('B:' + str(c.get('anyInit', {}).get('name')) if n in ('read_binary', '<dependent>') else f'?:{n}'))
+                if c.get('kind') == 'CompoundStmt':
+                    for st in c.get('inner', []):
+                        s_ = strip(st)
+                        n, _ = callee_name(s_) if s_.get('kind') in ('CallExpr', 'CXXMemberCallExpr') else (None, None)
+                        sq.append('F' if n == 'read_io_footer' else f'?:{s_.get("kind")}')
+            seqs.setdefault('field', {})['read_binary'] = sq
         if k == 'VarDecl' and name == 'IO_MAGIC_HEADER' and outer:
             v = lit(d)
             if v is not None:
